@@ -341,6 +341,7 @@ struct world
     std::map<long, std::unique_ptr<term_obj>> terms;
     std::map<long, std::unique_ptr<canvas>> canvases;
     std::map<long, held_cell> held;
+    std::map<long, terminalpp::string> strings;
     std::map<long, std::pair<long, std::unique_ptr<screen>>> screens;
     std::map<long, std::unique_ptr<detail::parser>> parsers;
 };
@@ -663,6 +664,78 @@ void do_value(std::ostream &out, toks &t)
     else out << "ERR unknown value type\n";
 }
 
+// objects of the attributed string class
+void do_string(std::ostream &out, world &w, toks &t)
+{
+    long id = t.num();
+    std::string const op = t.str();
+    using tstr = terminalpp::string;
+    auto rd_bytes = [&t]() { auto const b = unhex(t.str()); return std::string(b.begin(), b.end()); };
+    if (op == "ofbytes") { auto const b = rd_bytes(); w.strings[id] = tstr(b.data(), b.size()); }
+    else if (op == "ofstd") { w.strings[id] = tstr(rd_bytes()); }
+    else if (op == "ofstdattr") { auto const b = rd_bytes(); w.strings[id] = tstr(b, mk_attr(t)); }
+    else if (op == "cstr") { auto const b = rd_bytes(); w.strings[id] = tstr(b.c_str()); }
+    else if (op == "fill") { long n = t.num(); w.strings[id] = tstr(static_cast<tstr::size_type>(n), mk_elem(t)); }
+    else if (op == "range")
+    {
+        long n = t.num();
+        std::vector<element> v;
+        for (long i = 0; i < n; ++i) v.push_back(mk_elem(t));
+        w.strings[id] = tstr(v.begin(), v.end());
+    }
+    else if (op == "ilist")
+    {
+        long n = t.num();
+        std::vector<element> v;
+        for (long i = 0; i < n; ++i) v.push_back(mk_elem(t));
+        if (n == 0) w.strings[id] = tstr(std::initializer_list<element>{});
+        else if (n == 1) w.strings[id] = tstr({v[0]});
+        else if (n == 2) w.strings[id] = tstr({v[0], v[1]});
+        else w.strings[id] = tstr({v[0], v[1], v[2]});
+    }
+    else if (op == "copy") { w.strings[id] = w.strings.at(t.num()); }
+    else if (op == "appendelem") { w.strings.at(id) += mk_elem(t); }
+    else if (op == "append") { long o = t.num(); w.strings.at(id) += w.strings.at(o); }
+    else if (op == "plus") { long a = t.num(), b = t.num(); w.strings[id] = w.strings.at(a) + w.strings.at(b); }
+    else if (op == "pluselem") { long a = t.num(); w.strings[id] = w.strings.at(a) + mk_elem(t); }
+    else if (op == "insert") { long pos = t.num(); auto &s = w.strings.at(id); s.insert(s.begin() + pos, mk_elem(t)); }
+    else if (op == "insertrange")
+    {
+        long pos = t.num(), o = t.num();
+        auto &s = w.strings.at(id);
+        tstr const src = w.strings.at(o);     // a copy: the source may be the target itself
+        s.insert(s.begin() + pos, src.begin(), src.end());
+    }
+    else if (op == "erase") { w.strings.at(id).erase(); }
+    else if (op == "erasefrom") { long pos = t.num(); auto &s = w.strings.at(id); s.erase(s.begin() + pos); }
+    else if (op == "eraserange") { long a = t.num(), b = t.num(); auto &s = w.strings.at(id); s.erase(s.begin() + a, s.begin() + b); }
+    else if (op == "setat") { long i = t.num(); w.strings.at(id)[static_cast<tstr::size_type>(i)] = mk_elem(t); }
+    // string::swap, cbegin() and cend() are declared in string.hpp but defined nowhere
+    // in the library (a program calling them does not link), so std::swap is used here
+    else if (op == "swap") { long o = t.num(); std::swap(w.strings.at(id), w.strings.at(o)); }
+    else if (op == "dump")
+    {
+        auto &s = w.strings.at(id);
+        tstr const &cs = s;
+        out << "ZS " << cs.size() << " " << cs.empty() << "\n";
+        for (auto const &e : cs) out << "E " << pr_elem(e) << "\n";
+        auto const r = to_string(cs);
+        out << "TS " << hex(reinterpret_cast<byte const *>(r.data()), r.size()) << "\n";
+        // the other ways of looking at the same elements must agree with const iteration
+        std::vector<element> fwd(cs.begin(), cs.end()), viaidx, viamut(s.begin(), s.end()), viarev(cs.rbegin(), cs.rend()),
+            viamrev(s.rbegin(), s.rend()), viac(fwd);
+        for (tstr::size_type i = 0; i < cs.size(); ++i) viaidx.push_back(cs[i]);
+        std::reverse(viarev.begin(), viarev.end());
+        std::reverse(viamrev.begin(), viamrev.end());
+        if (fwd.size() != cs.size() || (cs.size() == 0) != cs.empty()) out << "ZX size()/empty() disagree with the elements iterated\n";
+        if (viaidx != fwd) out << "ZX operator[] disagrees with iteration\n";
+        if (viamut != fwd || viac != fwd) out << "ZX begin()/cbegin() disagree with const iteration\n";
+        if (viarev != fwd || viamrev != fwd) out << "ZX reverse iteration disagrees with forward iteration\n";
+        if (!(cs == tstr(fwd.begin(), fwd.end()))) out << "ZX the string differs from a string built from its own elements\n";
+    }
+    else out << "ERR unknown string op\n";
+}
+
 // raw detail::parser, no terminal around it
 void do_parser(std::ostream &out, world &w, toks &t)
 {
@@ -700,6 +773,7 @@ void run_line(std::ostream &out, world &w, std::string const &line)
     else if (k == "S") do_screen(out, w, t);
     else if (k == "M") do_markup(out, t);
     else if (k == "V") do_value(out, t);
+    else if (k == "Z") do_string(out, w, t);
     else if (k == "P") do_parser(out, w, t);
     else out << "ERR unknown line kind\n";
 }
